@@ -7,7 +7,10 @@ import ClairModel.Model.JsonBlob
     reset                                         -> ok
     rec <v|e> <upd> <fp> <cands> <recs>           -> ref <r> used <k> | hang
     delta <upd> <fp> <cands> <recs> <ndeleted>    -> ref <r> used <k> | hang
-    store <order>                                 -> ok|err lines=<l,…> left=<r,…> | bad-order
+    recfail <v|e> <upd> <fp> <recs>               -> err   (diskBuf or the per-update encoder failed)
+    store <order> <faults>                        -> ok|err lines=<l,…> left=<r,…> | bad-order
+                                                     (fault `ref:k`: the disk buffer of `ref` fails after k lines)
+    entries                                       -> ref/upd/fp of every key of Entries(), by ref
     load                                          -> entries of everything written so far
     loadraw <item;item;…>                         -> entries of a hand-made file
     latest <v|e>                                  -> <r>
@@ -31,6 +34,12 @@ def recs (s : String) : Option (List Rec) :=
   (list s).mapM fun t =>
     match t.splitOn ":" with
     | [a, b] => do pure { tok := (← a.toNat?), len := (← b.toNat?) }
+    | _ => none
+
+def faults (s : String) : Option (List (Nat × Nat)) :=
+  (list s).mapM fun t =>
+    match t.splitOn ":" with
+    | [a, b] => do pure ((← a.toNat?), (← b.toNat?))
     | _ => none
 
 def showNats (l : List Nat) : String :=
@@ -85,6 +94,7 @@ def out : Out → String
   | .ref r used => s!"ref {r} used {used}"
   | .hang => "hang"
   | .badOrder => "bad-order"
+  | .err => "err"
   | .stored ok ls left => s!"{if ok then "ok" else "err"} lines={showLines ls} left={showNats left}"
 
 def stepLine (w : World) (l : String) : World × String :=
@@ -98,10 +108,17 @@ def stepLine (w : World) (l : String) : World × String :=
     match nats c, recs r, nd.toNat? with
     | some c, some r, some nd => let (w', o) := step w (.delta u f r (List.replicate nd "x") c); (w', out o)
     | _, _, _ => (w, "bad-op")
-  | ["store", o] =>
-    match nats o with
-    | some o => let (w', o) := step w (.store o); (w', out o)
-    | none => (w, "bad-op")
+  | ["recfail", k, u, f, r] =>
+    match (if k == "v" then some Kind.vuln else if k == "e" then some Kind.enrich else none), recs r with
+    | some k, some r => let (w', o) := step w (.failed k u f r); (w', out o)
+    | _, _ => (w, "bad-op")
+  | ["store", o, fs] =>
+    match nats o, faults fs with
+    | some o, some fs => let (w', o) := step w (.store o fs); (w', out o)
+    | _, _ => (w, "bad-op")
+  | ["entries"] =>
+    let es := w.store.entries.mergeSort (fun a b => decide (a.ref ≤ b.ref))
+    (w, if es.isEmpty then "-" else ",".intercalate (es.map fun e => s!"{e.ref}/{e.updater}/{e.fp}"))
   | ["load"] => (w, showLoad (loadAll w.out))
   | ["loadraw", items] =>
     match (list items ";").mapM rawItem with
